@@ -2,6 +2,7 @@
 from __future__ import annotations
 
 import ast
+import re
 
 from ..eqmodel import attrs_read, eq_disjuncts
 from ..pymodel import package
@@ -87,17 +88,29 @@ def _r3(ctx, pkg):
     fl = Flow(fn, NF)
     W = (NF, fn.lineno)
     RL = ("attr", SELF, "reaction_list")
-    stores = [f for f in fl.facts if f.kind == "store" and f.target == "seen"]
-    reports = [f for f in fl.facts if f.kind == "append" and f.target in ("dupes", "dupidx")]
-    grows = [f for f in fl.facts if f.kind == "call" and f.target == "append" and f.value[1][0] == "sub" and f.value[1][1] == ("acc", "seen")]
+    # the locals by role: (DUPES, DUPIDX, first) is the returned tuple; SEEN is the table `first` is read from (or, failing
+    # that, the one the report is guarded by)
+    DUPES, DUPIDX, SEEN = "dupes", "dupidx", "seen"
+    rets0 = [simp(f.value) for f in fl.facts if f.kind == "return"]
+    if len(rets0) == 1 and rets0[0][0] == "tuple" and len(rets0[0][1]) == 3:
+        a0, b0, c0 = rets0[0][1]
+        if a0[0] == "acc" and b0[0] == "acc":
+            DUPES, DUPIDX = a0[1], b0[1]
+        tabs = [x[1][1] for x in walk(c0) if isinstance(x, tuple) and len(x) == 5 and x[0] == "meth" and x[2] == "items" and x[1][0] == "acc"]
+        if tabs:
+            SEEN = tabs[0]
+    ACC_SEEN = ("acc", SEEN)
+    stores = [f for f in fl.facts if f.kind == "store" and f.target == SEEN]
+    reports = [f for f in fl.facts if f.kind == "append" and f.target in (DUPES, DUPIDX)]
+    grows = [f for f in fl.facts if f.kind == "call" and f.target == "append" and f.value[1][0] == "sub" and f.value[1][1] == ACC_SEEN]
     # whatever the shape of the table: an entry written for a key that is already there, with a value that does not
     # build on the old entry, forgets the first occurrence -- and `first` / the report are derived from the table
     for st in stores:
         k_ = simp(st.index)
-        unseen = ("cmp", ("NotIn",), (k_, ("acc", "seen")))
+        unseen = ("cmp", ("NotIn",), (k_, ACC_SEEN))
         g_ = [(simp(g), p) for g, p in st.guards]
-        reads_old = any(x == ("acc", "seen") for x in walk(simp(st.value)))
-        if (unseen, True) not in g_ and (("cmp", ("In",), (k_, ("acc", "seen"))), False) not in g_ and not reads_old:
+        reads_old = any(x == ACC_SEEN for x in walk(simp(st.value)))
+        if (unseen, True) not in g_ and (("cmp", ("In",), (k_, ACC_SEEN)), False) not in g_ and not reads_old:
             ctx.bad("R3", "store only when unseen", (NF, st.line), "the first-seen table is overwritten for a key that is already in it: the recorded occurrence is the previous one, not the first "
                     "(classes of three or more members report a wrong first member)", expected="if chk not in seen: seen[chk] = [idx]",
                     found="; ".join(("" if p else "not ") + show(g)[:60] for g, p in g_) or "unguarded store")
@@ -107,10 +120,10 @@ def _r3(ctx, pkg):
     st = stores[0]
     key = simp(st.index)
     lp = st.loops[0] if len(st.loops) == 1 else None
-    notseen = ("cmp", ("NotIn",), (key, ("acc", "seen")))
+    notseen = ("cmp", ("NotIn",), (key, ACC_SEEN))
     # loop
-    chk = simp(fl.env.get("check_list"))
     it = simp(lp.iter) if lp else None
+    chk = it[2][0] if it and it[0] == "call" and it[1] == ("global", "enumerate") and len(it[2]) == 1 else ("const", None)
     ok_loop = lp is not None and it == ("call", ("global", "enumerate"), (chk,), ())
     ctx.check(ok_loop, "R3", "loop", (NF, lp.line if lp else fn.lineno), "every entry of the check list is visited once, in order, with its index", found=show(it)[:100] if it else "")
     ctx.check([(simp(g), p) for g, p in st.guards] == [(notseen, True)], "R3", "store only when unseen", (NF, st.line),
@@ -125,7 +138,7 @@ def _r3(ctx, pkg):
         why = ""
         for x, p in extra:
             # len(seen[chk]) >= 1  /  > 0 : true for every stored list (created non-empty, only grows)
-            b = match(("cmp", (V("op"),), (("call", ("global", "len"), (("sub", ("acc", "seen"), key),), ()), ("const", V("n")))), x)
+            b = match(("cmp", (V("op"),), (("call", ("global", "len"), (("sub", ACC_SEEN, key),), ()), ("const", V("n")))), x)
             if b and p and ((b["op"] == "GtE" and b["n"] <= 1) or (b["op"] == "Gt" and b["n"] <= 0)):
                 continue
             taut = False
@@ -134,8 +147,8 @@ def _r3(ctx, pkg):
                   "a reaction is reported iff its key was seen before" if base_ok and taut else
                   f"the report is additionally guarded by `{why}`, which is not always true in the seen arm: the second member of a repeated class is not reported",
                   expected="report in the `else` of `chk not in seen` (any extra guard a tautology such as len(seen[chk]) >= 1)", found="; ".join(("" if p else "not ") + show(x)[:50] for x, p in g))
-    d = [f for f in reports if f.target == "dupes"][0]
-    i = [f for f in reports if f.target == "dupidx"][0]
+    d = [f for f in reports if f.target == DUPES][0]
+    i = [f for f in reports if f.target == DUPIDX][0]
     idx = ("idx", chk, lp.id) if lp else None
     ctx.check(simp(i.value) == idx and simp(d.value) == ("sub", RL, idx), "R3", "report values", (NF, d.line),
               "the reported pair is (reactions[idx], idx) of the current entry", found=f"{show(simp(d.value))[:60]} / {show(simp(i.value))[:40]}")
@@ -150,9 +163,9 @@ def _r3(ctx, pkg):
     if len(rets) == 1 and simp(rets[0].value)[0] == "tuple" and len(simp(rets[0].value)[1]) == 3:
         a, b, c = simp(rets[0].value)[1]
         found = show(c)[:140]
-        if c[0] == "comp" and len(c[3]) == 1 and a == ("acc", "dupes") and b == ("acc", "dupidx"):
+        if c[0] == "comp" and len(c[3]) == 1 and a == ("acc", DUPES) and b == ("acc", DUPIDX):
             tg, itr, ifs = c[3][0]
-            if itr == ("meth", ("acc", "seen"), "items", (), ()) and tg[0] == "tuple" and len(tg[1]) == 2:
+            if itr == ("meth", ACC_SEEN, "items", (), ()) and tg[0] == "tuple" and len(tg[1]) == 2:
                 idxes = tg[1][1]
                 okf = c[2] == ("sub", RL, ("sub", idxes, ("const", 0))) and tuple(ifs) == (("cmp", ("Gt",), (("call", ("global", "len"), (idxes,), ()), ("const", 1))),)
     ctx.check(okf, "R3", "first", (NF, rets[0].line if rets else fn.lineno), "`first` = reactions[idxes[0]] for every key seen more than once, in insertion order",
@@ -180,7 +193,8 @@ def _r3(ctx, pkg):
     ctx.saw(RF, "Reaction.__format__")
     ffl = Flow(ff, RF)
     for nm, attr in (("rnames", "reactants"), ("pnames", "products")):
-        a = ffl.assigns.get(nm, [])
+        # by role: the local whose first value is built from self.<attr>
+        a = next((lst for lst in ffl.assigns.values() if lst and any(x == ("attr", SELF, attr) for x in walk(simp(lst[0][0])))), [])
         ok = False
         found = ""
         if a:
@@ -205,7 +219,7 @@ def _r4(ctx, pkg, rule="R4"):
     fl = Flow(fn, NF)
     RL = ("attr", SELF, "reaction_list")
     R = ("param", "reaction")
-    st = [f for f in fl.facts if any("isinstance(r, int)" in show(simp(g)) and p for g, p in f.guards)]
+    st = [f for f in fl.facts if any(re.search(r"isinstance\(\w+, int\) for", show(simp(g))) and p for g, p in f.guards)]
     ok = False
     found = ""
     if len(st) == 1 and st[0].kind == "attrstore" and st[0].target == "reaction_list":
